@@ -519,9 +519,51 @@ async fn run_mock(stim: &Value, log: &Rec) {
     drive_client(SvcClient::new(svc), stim, log).await;
 }
 
+/// server.via_config: the service is tonic::server::Grpc driven directly, its compression configured through the public
+/// EnabledCompressionEncodings (what generated code passes to apply_compression_config): every encoding is enabled - the wanted ones first -
+/// and the unwanted ones are then removed again with pop()
+#[derive(Clone)]
+struct DirectH { script: Arc<Value>, log: Rec }
+impl DirectH { fn seen(&self, r: &Request<Vec<u8>>) { self.log.ev(json!({"e":"srv_req","meta":meta_json(r.metadata()),"msgs":[bytes_json(r.get_ref())],"err":-1})); } }
+impl tonic::server::UnaryService<Vec<u8>> for DirectH {
+    type Response = Vec<u8>;
+    type Future = std::future::Ready<Result<Response<Vec<u8>>, Status>>;
+    fn call(&mut self, r: Request<Vec<u8>>) -> Self::Future { self.seen(&r); std::future::ready(Ok(Response::new(json_bytes(&self.script["msgs"][0])))) }
+}
+impl tonic::server::ServerStreamingService<Vec<u8>> for DirectH {
+    type Response = Vec<u8>;
+    type ResponseStream = BoxStream;
+    type Future = std::future::Ready<Result<Response<BoxStream>, Status>>;
+    fn call(&mut self, r: Request<Vec<u8>>) -> Self::Future {
+        self.seen(&r);
+        let items: Vec<Result<Vec<u8>, Status>> = self.script["msgs"].as_array().cloned().unwrap_or_default().iter().map(|m| Ok(json_bytes(m))).collect();
+        std::future::ready(Ok(Response::new(Box::pin(tokio_stream::iter(items)) as BoxStream)))
+    }
+}
+fn config_of(wanted: &Value) -> tonic::codec::EnabledCompressionEncodings {
+    let wanted: Vec<String> = wanted.as_array().cloned().unwrap_or_default().iter().filter_map(|e| e.as_str().map(|s| s.to_string())).collect();
+    let mut set = tonic::codec::EnabledCompressionEncodings::default();
+    for e in wanted.iter() { if let Some(e) = enc_of(e) { set.enable(e); } }
+    let mut extra = 0;
+    for e in ["gzip", "deflate", "zstd"] { if !wanted.iter().any(|w| w == e) { if let Some(e) = enc_of(e) { set.enable(e); extra += 1; } } }
+    for _ in 0..extra { set.pop(); }
+    set
+}
+fn direct_stack(stim: &Value, log: &Rec) -> Stack {
+    let (accept, send) = (config_of(&stim["server"]["accept"]), config_of(&stim["server"]["send"]));
+    let h = DirectH { script: Arc::new(stim["script"].clone()), log: log.clone() };
+    let sstream = stim["shape"].as_str() == Some("sstream");
+    BoxCloneService::new(tower::service_fn(move |req: http::Request<Body>| {
+        let h = h.clone();
+        async move {
+            let mut g = tonic::server::Grpc::new(RawCodec::default()).apply_compression_config(accept, send);
+            Ok::<_, BoxErr>(if sstream { g.server_streaming(h, req).await } else { g.unary(h, req).await })
+        }
+    }))
+}
+
 async fn run_raw(stim: &Value, log: &Rec) {
-    let svc = build_server(stim, log);
-    let mut stack = stack_of(svc);
+    let mut stack = if stim["server"]["via_config"].as_bool().unwrap_or(false) { direct_stack(stim, log) } else { stack_of(build_server(stim, log)) };
     let raw = &stim["raw"];
     let mut b = http::Request::builder().method(raw["method"].as_str().unwrap_or("POST")).uri(raw["uri"].as_str().unwrap_or("/"))
         .version(match raw["version"].as_str().unwrap_or("HTTP/2.0") { "HTTP/1.1" => http::Version::HTTP_11, "HTTP/1.0" => http::Version::HTTP_10, _ => http::Version::HTTP_2 });
